@@ -1017,6 +1017,9 @@ func randomFunc() func(st funcGen.Stack[Value], cs []Value) (Value, error) {
 		} else if st.Size() == 1 {
 			v := st.Get(0)
 			if n, ok := v.(Int); ok {
+				if n <= 0 {
+					return nil, errors.New("random requires a positive argument")
+				}
 				return Int(rand.Intn(int(n))), nil
 			}
 			return nil, errors.New("random only allowed on int")
